@@ -25,3 +25,68 @@ func SortedKeysBy[K comparable, V any](m map[K]V) []K {
 	sort.Slice(ks, func(i, j int) bool { return fmt.Sprint(ks[i]) < fmt.Sprint(ks[j]) })
 	return ks
 }
+
+// ---- R6: deterministic stand-ins for crypto/rand and math/rand ---------------------------
+
+func randStream() *splitmix {
+	w := Cur()
+	if w == nil {
+		return nil
+	}
+	w.mu.Lock()
+	defer w.mu.Unlock()
+	if w.codeRand == nil {
+		w.codeRand = newSplitmix(w.cfg.Seed*0x2545F4914F6CDD1D + uint64(w.cfg.Run) + 99)
+	}
+	return w.codeRand
+}
+
+// Values come from a per-run stream. Callers in instrumented code draw under their own
+// locks or from a single task, so the order of draws is schedule-determined.
+func RandRead(p []byte) (int, error) {
+	w := Cur()
+	s := randStream()
+	if s == nil {
+		return cryptoRead(p)
+	}
+	w.mu.Lock()
+	for i := range p {
+		p[i] = byte(s.next())
+	}
+	w.mu.Unlock()
+	return len(p), nil
+}
+
+func randU64() uint64 {
+	w := Cur()
+	s := randStream()
+	if s == nil {
+		var b [8]byte
+		cryptoRead(b[:])
+		var v uint64
+		for _, x := range b {
+			v = v<<8 | uint64(x)
+		}
+		return v
+	}
+	w.mu.Lock()
+	defer w.mu.Unlock()
+	return s.next()
+}
+
+func RandFloat64() float64     { return float64(randU64()>>11) / (1 << 53) }
+func RandInt63() int64         { return int64(randU64() >> 1) }
+func RandInt() int             { return int(randU64() >> 1) }
+func RandIntn(n int) int       { return int(randU64() % uint64(n)) }
+func RandInt63n(n int64) int64 { return int64(randU64() % uint64(n)) }
+func RandInt31n(n int32) int32 { return int32(randU64() % uint64(n)) }
+func RandUint32() uint32       { return uint32(randU64()) }
+func RandPerm(n int) []int {
+	p := make([]int, n)
+	for i := range p {
+		j := RandIntn(i + 1)
+		p[i] = p[j]
+		p[j] = i
+	}
+	return p
+}
